@@ -16,8 +16,11 @@ def main():
         mp = os.path.join(d, "meta.json")
         meta = json.load(open(mp))
         r = subprocess.run([sys.executable, os.path.join(HERE, "tools", "seedtest.py"), os.path.join(d, "patch.diff")], capture_output=True, text=True)
-        fired, rules = [], []
+        fired, rules, undecided = [], [], []
         for line in r.stdout.splitlines():
+            mu = re.match(r"(C\d\d) undecided", line)
+            if mu:
+                undecided.append(mu.group(1))
             if line.startswith("FIRED:"):
                 fired = [f for f in line.split()[1:] if f != "none"]
             m = re.match(r"\s+(C\d\d\.\w+) @(\S+): (.*)", line)
@@ -27,8 +30,9 @@ def main():
         meta["checks_reporting_it"] = fired
         meta["rules_reporting_it"] = sorted(set(rules))[:12]
         meta["target_check_reports_it"] = meta["property"] in fired
+        meta["checks_undecided_on_it"] = undecided
         json.dump(meta, open(mp, "w"), indent=1)
-        print(sid, "was", old, "now", fired)
+        print(sid, "was", old, "now", fired, ("undecided: %s" % undecided) if undecided else "")
 
 
 if __name__ == "__main__":
